@@ -38,17 +38,34 @@ def prim_value(rng, k):
 
 
 def rand_string(rng):
+    """arbitrary byte strings: empty, NUL at the first / middle / last position, all-zero, high bytes, long"""
     r = rng.random()
-    if r < 0.2:
+    if r < 0.12:
         return []
-    if r < 0.5:
-        return [rng.randrange(1, 256) for _ in range(rng.choice([1, 1, 2, 3, 7, 8, 9, 15, 16, 17]))]
-    if r < 0.7:
+    if r < 0.30:                                             # NUL bytes placed on purpose
+        n = rng.choice([1, 1, 2, 2, 3, 5, 8, 255, 256, 257])
+        b = [rng.randrange(1, 256) for _ in range(n)]
+        where = rng.choice(["first", "middle", "last", "all", "first+last", "two"])
+        if where in ("first", "first+last"):
+            b[0] = 0
+        if where in ("last", "first+last"):
+            b[-1] = 0
+        if where == "middle":
+            b[n // 2] = 0
+        if where == "two":
+            b[rng.randrange(n)] = 0
+            b[rng.randrange(n)] = 0
+        if where == "all":
+            b = [0] * n
+        return b
+    if r < 0.52:
+        return [rng.randrange(0, 256) for _ in range(rng.choice([1, 1, 2, 3, 7, 8, 9, 15, 16, 17]))]
+    if r < 0.66:
         return [rng.randrange(0x80, 0x100) for _ in range(rng.randrange(1, 40))]
-    if r < 0.8:
-        return list(range(1, 256))
-    if r < 0.86:
-        return [rng.randrange(1, 256) for _ in range(rng.choice([255, 256, 257, 1000, 5000]))]
+    if r < 0.74:
+        return list(range(0, 256))
+    if r < 0.84:
+        return [rng.randrange(0, 256) for _ in range(rng.choice([255, 256, 257, 1000, 5000, 5001, 7000]))]
     return [rng.choice(b"abcXYZ 09_") for _ in range(rng.randrange(1, 30))]
 
 
@@ -77,6 +94,260 @@ def rand_leaf(rng, ids, self_id=None):
     return "O %d" % rng.choice(ids)
 
 
+# ------------------------------------------------------------------ script variables
+PRIMES = [7, 17, 37, 79, 163, 331, 673, 1361, 2729, 5471, 10949, 21911, 43853, 87719, 175447, 701819, 1403641,
+          2807303, 5614657, 11229331, 22458671, 44917381, 89834777, 0]
+M64 = (1 << 64) - 1
+
+
+def key_hash(node):
+    """Hash<ScriptVariable> of an integer or string key, as a uintptr_t"""
+    if node.kind == "i":
+        return node.arg & M64
+    h = 0
+    for b in node.arg:                       # HashCharArray: hash * 31 + (signed char)
+        if b == 0:
+            break
+        h = (h * 31 + (b - 256 if b >= 128 else b)) & M64
+    return h
+
+
+class SetSim:
+    """con::set as far as insertion is concerned: table length, threshold, chains (new entries at the head),
+    rehash to the next prime; gives the order in which set::Archive writes the entries"""
+
+    def __init__(self):
+        self.tl, self.thr, self.count, self.tli = 1, 1, 0, 0
+        self.buckets = [[]]
+
+    def insert(self, h, entry):
+        if self.count >= self.thr:
+            new = 0
+            for i, pr in enumerate(PRIMES):
+                new = pr
+                if pr > self.tl:
+                    self.tli = i
+                    break
+            old = self.buckets
+            self.tl = self.thr = new
+            self.buckets = [[] for _ in range(new)]
+            for i in range(len(old), 0, -1):
+                for hh, e in old[i - 1]:
+                    self.buckets[hh % new].insert(0, (hh, e))
+        self.count += 1
+        self.buckets[h % self.tl].insert(0, (h, entry))
+
+    def remove(self, h, entry):
+        """set::remove: unlinks the entry; the table never shrinks, count goes down"""
+        b = self.buckets[h % self.tl]
+        for i, (hh, e) in enumerate(b):
+            if e is entry:
+                del b[i]
+                self.count -= 1
+                return True
+        return False
+
+    def archive_order(self):
+        out = []
+        for i in range(self.tl, 0, -1):
+            out += [e for _, e in self.buckets[i - 1]]
+        return out
+
+
+class SV:
+    """a script value in the generator: kind + argument; arrays/const arrays are Holder objects shared by identity"""
+
+    def __init__(self, kind, arg=None):
+        self.kind, self.arg = kind, arg
+
+
+class Holder:
+    def __init__(self, kind, hid):
+        self.kind, self.hid = kind, hid       # 'A' or 'K'
+        self.entries = []                     # A: (key SV, value SV) in insertion order; K: [SV]
+        self.events = None                    # A with a history: ("ins", index into entries) | ("dum", int key) | ("rm", int key)
+
+
+class VarGen:
+    def __init__(self, rng, lis_ids, con_ids, safe_ids, top_vids):
+        self.rng, self.lis, self.con, self.safe, self.tops = rng, lis_ids, con_ids, safe_ids, top_vids
+        self.next_vid, self.next_hid = 100000, 500000
+        self.holders = []                     # completed holders (may be shared)
+        self.occ = {}                         # hid -> number of references in the case
+
+    def scalar(self, top=False):
+        r, rng = self.rng.random(), self.rng
+        if r < 0.16:
+            return SV("i", rng.choice([0, 1, M64, 1 << 63, (1 << 63) - 1, rng.randrange(1 << 64), rng.randrange(100)]))
+        if r < 0.26:
+            return SV("f", rng.choice(FLOATS + [rng.randrange(1 << 32)]))
+        if r < 0.34:
+            return SV("c", rng.choice([0, 1, 0x41, 0x7f, 0x80, 0xff]))
+        if r < 0.50:
+            return SV("s", rand_string(rng)[:300])
+        if r < 0.60:
+            return SV("k", None if rng.random() < 0.2 else [rng.choice(b"abcdefXYZ_019 ") for _ in range(rng.randrange(1, 12))])
+        if r < 0.72:
+            return SV("L", rng.choice(self.lis + [None]) if self.lis else None)
+        if r < 0.80 and top:         # (a copy of a Ref variable does not copy the pointer: only top-level variables)
+            return SV("R", rng.choice(self.tops + [None]) if self.tops else None)
+        if r < 0.85:
+            return SV("C", rng.choice(self.con + [None]) if self.con else None)
+        if r < 0.89 and self.safe:
+            return SV("S", rng.choice(self.safe))
+        if r < 0.96:
+            return SV("v", [rng.randrange(256) for _ in range(12)] if rng.random() < 0.5 else
+                      list((rng.choice(FLOATS)).to_bytes(4, "little") * 3))
+        return SV("n")
+
+    def key(self, used):
+        rng = self.rng
+        for _ in range(50):
+            if rng.random() < 0.7:
+                v = rng.choice([rng.randrange(-3, 40), rng.randrange(-3, 40), rng.randrange(1 << 64), 7 * rng.randrange(12), -1]) & M64
+                k = ("i", v)
+            else:
+                k = ("s", tuple(rng.choice(b"abcdxyzQ_") for _ in range(rng.randrange(1, 6))))
+            if k not in used:
+                used.add(k)
+                return SV(k[0], k[1] if k[0] == "i" else list(k[1]))
+        return None
+
+    def value(self, depth, enclosing=None, allow_none=False):
+        rng = self.rng
+        r = rng.random()
+        if depth < 3 and r < 0.22:
+            return self.array(depth + 1)
+        if depth < 3 and r < 0.32:
+            return self.constarray(depth + 1)
+        if r < 0.44 and self.holders:
+            return SV("H", rng.choice(self.holders))
+        if r < 0.50 and enclosing is not None:
+            return SV("H", enclosing)                     # the array contains itself
+        v = self.scalar(depth == 0)
+        while v.kind == "n" and not allow_none:
+            v = self.scalar(depth == 0)
+        return v
+
+    def array(self, depth):
+        h = Holder("A", self.next_hid)
+        self.next_hid += 1
+        used = set()
+        n = self.rng.choice([0, 1, 1, 2, 2, 3, 4, 7, 8, 9, 18])
+        if depth > 1:
+            n = min(n, 4)
+        for _ in range(n):
+            k = self.key(used)
+            if k is None:
+                break
+            # the first entry creates the holder: it cannot be the array itself
+            h.entries.append((k, self.value(depth, enclosing=h if h.entries else None)))
+        # a history: more keys were inserted (the table grew: 1 -> 7 -> 17 -> 37 buckets) and removed again (it never shrinks),
+        # so that (tableLength, count) takes combinations like (7,0) (7,1) (17,1) (17,2) (37,3)
+        if self.rng.random() < 0.45:
+            total = self.rng.choice([2, 3, 7, 8, 9, 17, 18, 19, 38])
+            ndum = max(0, total - len(h.entries))
+            if ndum:
+                dums = [100000 + 37 * j + self.rng.randrange(30) for j in range(ndum)]
+                ev = [("ins", i) for i in range(len(h.entries))] + [("dum", d) for d in dums]
+                first = ev[0] if ev and h.entries and self.rng.random() < 0.5 else None
+                self.rng.shuffle(ev)
+                # the holder is created by the first insertion: keep an entry that may be the array itself away from it
+                ev.sort(key=lambda e: 0 if e[0] == "dum" and e[1] == dums[0] else 1)
+                out, live = [], []
+                for e in ev:
+                    out.append(e)
+                    if e[0] == "dum":
+                        live.append(e[1])
+                    while live and self.rng.random() < 0.3:
+                        out.append(("rm", live.pop(self.rng.randrange(len(live)))))
+                for d in live:
+                    out.append(("rm", d))
+                h.events = out
+        self.holders.append(h)
+        return SV("H", h)
+
+    def constarray(self, depth):
+        h = Holder("K", self.next_hid)
+        self.next_hid += 1
+        for _ in range(self.rng.choice([0, 1, 2, 3, 5])):
+            h.entries.append(self.value(depth, enclosing=None, allow_none=True))
+        self.holders.append(h)
+        return SV("H", h)
+
+    # ---- flattening in archive order
+    def count_refs(self, sv, seen):
+        if sv.kind != "H":
+            return
+        h = sv.arg
+        self.occ[h.hid] = self.occ.get(h.hid, 0) + 1
+        if h.hid in seen:
+            return
+        seen.add(h.hid)
+        for e in h.entries:
+            if h.kind == "A":
+                self.count_refs(e[1], seen)
+            else:
+                self.count_refs(e, seen)
+
+    def flatten(self, sv, vid, emitted, out):
+        """appends (vid, text-without-refcount | callable) tokens; emitted = hids already in the archive"""
+        k = sv.kind
+        if k == "n":
+            out.append("%d:n" % vid)
+        elif k in "ifc":
+            out.append("%d:%s:%x" % (vid, k, sv.arg))
+        elif k == "s":
+            out.append("%d:s:%s" % (vid, hexs(sv.arg)))
+        elif k == "k":
+            out.append("%d:k:%s" % (vid, "~" if sv.arg is None else hexs(sv.arg)))
+        elif k in "LRCS":
+            out.append("%d:%s:%s" % (vid, k, "n" if sv.arg is None else sv.arg))
+        elif k == "v":
+            out.append("%d:v:%s" % (vid, hexs(sv.arg)))
+        elif k == "P":
+            out.append("%d:P:%d:%d" % (vid, sv.arg, vid))
+        elif k == "H":
+            h = sv.arg
+            if h.hid in emitted:
+                out.append("%d:h:%s:%d" % (vid, h.kind, h.hid))
+                return
+            emitted.add(h.hid)
+            if h.kind == "K":
+                out.append("%d:K:%d:RC%d:%d" % (vid, h.hid, h.hid, len(h.entries)))
+                for e in h.entries:
+                    self.next_vid += 1
+                    self.flatten(e, self.next_vid, emitted, out)
+            else:
+                sim = SetSim()
+                events = h.events if h.events is not None else [("ins", i) for i in range(len(h.entries))]
+                recs = [(i, kk, vv) for i, (kk, vv) in enumerate(h.entries)]
+                dummies = {}
+                for e in events:
+                    if e[0] == "ins":
+                        sim.insert(key_hash(recs[e[1]][1]), recs[e[1]])
+                    elif e[0] == "dum":
+                        dummies[e[1]] = ("dummy", e[1])
+                        sim.insert(e[1] & M64, dummies[e[1]])
+                    else:
+                        sim.remove(e[1] & M64, dummies[e[1]])
+                order = sim.archive_order()
+                pos = {rec[0]: j for j, rec in enumerate(order)}          # entry index -> place in the archive
+                hist = "/".join(str(pos[e[1]]) if e[0] == "ins" else ("d%x" % e[1] if e[0] == "dum" else "r%x" % e[1]) for e in events)
+                out.append("%d:A:%d:RC%d:%d:%d:%d:%d:%s" % (vid, h.hid, h.hid, sim.tl, sim.thr, sim.tli, len(order), hist or "-"))
+                for _, kk, vv in order:
+                    self.next_vid += 1
+                    self.flatten(kk, self.next_vid, emitted, out)
+                    self.next_vid += 1
+                    self.flatten(vv, self.next_vid, emitted, out)
+
+
+def finish_refcounts(ops, occ):
+    """refCount of a holder = the references the host holds - 1; the harness keeps one extra reference per holder"""
+    import re as _re
+    return [_re.sub(r"RC(\d+)", lambda m: str(occ.get(int(m.group(1)), 1)), o) for o in ops]
+
+
 class C10(vlib.HistoryProp):
     cid = "C10"
     unit = "C10"
@@ -91,9 +362,17 @@ class C10(vlib.HistoryProp):
     def assumptions(self):
         return ["x86-64 widths (size_t and std::streamsize are 8 bytes, little endian); memory allocation succeeds",
                 "strings are read into fresh (empty) str destinations: a stored length 0 leaves the destination untouched, which then reads as the empty string",
-                "strings contain no NUL byte (str is built from a C string); bool values are 0 or 1; values fit their C++ type",
-                "objects are flat: the Archive() body of a host object is a list of primitive/string/raw/pointer/position calls, not another ArchiveObject",
-                "host classes: three Class subclasses and one Listener subclass (Listener::Archive of a listener without notify/wait/variable/end lists writes one zero flag byte); ScriptVariable::Archive is not part of this unit",
+                "strings are arbitrary byte strings (NUL allowed anywhere; built with str::assign(ptr, len), compared by length + bytes); the header magic and archive name are C strings (version_info_t holds const char*); bool values are 0 or 1; values fit their C++ type",
+                "objects are flat: the Archive() body of a host object is a list of primitive/string/raw/pointer/position/script-variable calls, not another ArchiveObject",
+                "host classes: three Class subclasses and one Listener subclass (Listener::Archive of a listener without notify/wait/variable/end lists writes one zero flag byte)",
+                "script variables: every kind of variableType_e; array keys are integers and C strings (the archive order of an array is the order of its hash table: the generator "
+                "simulates con::set insertion/rehash to predict tableLength, threshold, tableLengthIndex and the entry order; a wrong prediction shows as a byte mismatch, never as a missed one); "
+                "arrays keyed by listeners hash by address and are only probed for what is read back; Ref and ScriptPointer variables only at top level (copying such a variable into an "
+                "array does not copy the pointer); cycles of arrays only as an array that directly contains itself; the harness keeps one extra reference to every holder (refCount = references - 1)",
+                "dictionary strings (ConstString, variable keys) are non-empty C strings; the hash table that con::set::Archive rebuilds on loading is abstracted to the ordered list of entries "
+                "(the harness additionally checks that every entry read back is found by find())",
+                "an object is loaded either into storage the host owns (ArchiveObject(obj)) or by arc.ReadObject<T>() (the Archiver creates the instance): the model's reader is the same for both - "
+                "ReadObject<T>() is createInstance() + ArchiveObject(*instance) - who owns the memory is watched by AddressSanitizer; the plain/weak pointers of an object's body are members of the host object",
                 "one host object per identity; pointer identity on the reading side = identity of the reader's object created for the same identity; the archive is smaller than 2 GiB"]
 
     # ---- generation -------------------------------------------------------------------
@@ -119,14 +398,73 @@ class C10(vlib.HistoryProp):
         budget = ncalls
         for kind, i in events:
             if kind == "B":
-                nb = rng.choice([0, 0, 1, 2, 3, 5, 8])
+                nb = rng.choice([0, 0, 1, 2, 3, 5, 8, 10])
                 body = [rand_leaf(rng, ids, i) for _ in range(nb)]
-                ops.append("B %d %d [ %s ]" % (cls[i], i, " ; ".join(body)) if body else "B %d %d [ ]" % (cls[i], i))
+                # N: the reader loads this object with arc.ReadObject<T>() (only objects that are archived once)
+                letter = "N" if rng.random() < 0.35 and sum(1 for e in events if e == ("B", i)) == 1 else "B"
+                ops.append("%s %d %d [ %s ]" % (letter, cls[i], i, " ; ".join(body)) if body else "%s %d %d [ ]" % (letter, cls[i], i))
             elif kind == "O":
                 ops.append("O %d" % i)
             else:
                 ops.append(rand_leaf(rng, ids))
         return Case(cid, rng.choice(HEADERS), ops[:200], origin)
+
+    def script_case(self, rng, cid, nvars, origin):
+        """script variables of every kind among listeners, containers and ordinary records; arrays shared between
+        variables, nested, containing themselves; references between variables forward and backward"""
+        nlis = rng.randrange(0, 4)
+        lis = list(range(1, nlis + 1))
+        con = [200 + i for i in range(rng.randrange(0, 3))]
+        safe = [300 + i for i in range(rng.randrange(0, 3))]
+        tops = [1000 + i for i in range(nvars)]
+        gen = VarGen(rng, lis, con, safe, tops)
+        events = [("B", i) for i in lis if rng.random() < 0.85] + [("O", i) for i in con + safe if rng.random() < 0.85]
+        events += [("V", v) for v in tops] + [("L", None) for _ in range(rng.randrange(0, 4))]
+        rng.shuffle(events)
+        values = {}
+        for kind, v in events:                      # values are generated in archive order: sharing goes backwards
+            if kind == "V":
+                r = rng.random()
+                if r < 0.06:
+                    values[v] = SV("P", gen.next_hid)
+                    gen.next_hid += 1
+                else:
+                    values[v] = gen.value(0, allow_none=True)
+        seen = set()
+        for kind, v in events:
+            if kind == "V":
+                gen.count_refs(values[v], seen)
+        emitted = set()
+        ops = []
+        pending_body = []
+
+        def vleaf(v):
+            toks = []
+            gen.flatten(values[v], v, emitted, toks)
+            key = rng.choice(["*", "*", "*", "~", hexs([rng.choice(b"keyname_01") for _ in range(rng.randrange(1, 8))])])
+            return "V %s %s" % (key, " ".join(toks))
+
+        i = 0
+        while i < len(events):
+            kind, v = events[i]
+            if kind == "B":
+                body = []
+                # a listener whose Archive() body archives the next variable(s) and a pointer to itself
+                while i + 1 < len(events) and events[i + 1][0] == "V" and rng.random() < 0.4:
+                    i += 1
+                    body.append(vleaf(events[i][1]))
+                if rng.random() < 0.5:
+                    body.append("Q s %d" % v)
+                letter = rng.choice("BBN")
+                ops.append("%s 2 %d [ %s ]" % (letter, v, " ; ".join(body)) if body else "%s 2 %d [ ]" % (letter, v))
+            elif kind == "O":
+                ops.append("O %d" % v)
+            elif kind == "V":
+                ops.append(vleaf(v))
+            else:
+                ops.append(rand_leaf(rng, lis))
+            i += 1
+        return Case(cid, rng.choice(HEADERS), finish_refcounts(ops, gen.occ), origin)
 
     def prim_case(self, rng, cid, n):
         ops = []
@@ -135,8 +473,10 @@ class C10(vlib.HistoryProp):
         return Case(cid, rng.choice(HEADERS), ops, "random-values-%s-calls" % ("1-20" if n <= 20 else "21-200"))
 
     ALPHA = ["Q p 1", "Q s 1", "Q s 2", "Q p n", "Q p 3", "B 0 1 [ ]", "B 0 1 [ Q p 1 ; Q s 2 ]", "B 1 2 [ Q s 1 ]",
-             "B 2 3 [ Q p 2 ; Q s 3 ]", "B 3 4 [ S - ; Q p 4 ]", "O 1", "O 2", "O 5", "S -", "S 61", "P u8 ff", "R -", "R 00",
-             "P bo 1", "P u32 fff6040e"]
+             "B 2 3 [ Q p 2 ; Q s 3 ]", "B 3 4 [ S - ; Q p 4 ]", "O 1", "O 2", "O 5", "S -", "S 61", "S 00", "S 0061", "S 6100", "S 610062", "P u8 ff", "R -", "R 00",
+             "P bo 1", "P u32 fff6040e", "B 1 6 [ S 00 ; Q p 6 ]",
+             "V * 1000:i:7", "V 6b 1001:s:0041", "V * 1002:L:3", "V * 1003:R:1000", "V ~ 1004:k:6162",
+             "N 1 7 [ Q p 1 ; Q s 7 ; Q p 8 ]", "N 2 8 [ Q s 7 ]"]
 
     def gen(self, tier, seed):
         rng = random.Random(seed)
@@ -172,12 +512,16 @@ class C10(vlib.HistoryProp):
                 cases.append(Case("e%d" % k, HEADERS[0], list(tup), "exhaustive-len%d" % n))
                 k += 1
         if tier == "quick":
-            plan = [("g", 3, 8, 1500), ("g", 8, 30, 600), ("g", 30, 200, 60), ("p", 0, 20, 400), ("p", 0, 200, 30)]
+            plan = [("g", 3, 8, 1200), ("g", 8, 30, 500), ("g", 30, 200, 50), ("p", 0, 20, 300), ("p", 0, 200, 30),
+                    ("v", 2, 0, 700), ("v", 5, 0, 500), ("v", 12, 0, 100)]
         else:
-            plan = [("g", 2, 6, 20000), ("g", 3, 8, 20000), ("g", 8, 30, 10000), ("g", 30, 200, 1500), ("p", 0, 20, 5000), ("p", 0, 200, 500)]
+            plan = [("g", 2, 6, 20000), ("g", 3, 8, 20000), ("g", 8, 30, 10000), ("g", 30, 200, 1500), ("p", 0, 20, 5000), ("p", 0, 200, 500),
+                    ("v", 1, 0, 10000), ("v", 3, 0, 15000), ("v", 6, 0, 8000), ("v", 15, 0, 1500)]
         for kind, nobj, ncalls, cnt in plan:
             for _ in range(cnt):
-                if kind == "g":
+                if kind == "v":
+                    cases.append(self.script_case(rng, "v%d" % k, rng.randrange(1, nobj + 1), "random-script-variables-upto%d" % nobj))
+                elif kind == "g":
                     no = rng.randrange(1, nobj + 1)
                     cases.append(self.graph_case(rng, "g%d" % k, no, rng.randrange(no, ncalls + 1), "random-graph-%dobj-%dcalls" % (nobj, ncalls)))
                 else:
@@ -197,26 +541,72 @@ class C10(vlib.HistoryProp):
         direct = []
         if any(l.startswith("! ") for l in m) or any(l.startswith("b !") for l in b):
             direct.append("writing or reading an intact archive failed: " + (m + b)[0])
+        for l in lines:
+            if l.startswith("e ") and not l.startswith("e ok"):
+                direct.append("the arrays that were loaded do not behave like the originals when they are searched, grown and emptied: " + l[2:])
         return b + m, [], direct, None
 
     def nontrivial(self, case, compared):
         ops = case.ops
-        objs = [o for o in ops if o.startswith("B ")]
+        objs = [o for o in ops if o.startswith("B ") or o.startswith("N ")]
         ptrs = [o for o in ops if "Q " in o and not o.endswith(" n")]
-        return len(ops) >= 3 and bool(objs) and bool(ptrs)
+        shared = [o for o in ops if ":h:" in o]
+        return (len(ops) >= 3 and bool(objs) and bool(ptrs)) or bool(shared)
 
 
 HP = C10()
 
+# Findings that have been reported but are neither repaired in /repo nor (yet) listed in
+# /verif/known_findings.json: until that is decided they are treated as listed (KNOWN-FINDING);
+# VERIF_STRICT_FINDINGS=1 turns them into violations.
+PENDING = {}   # nothing pending: the C11 finding is fixed (/repo 8fad902), the C10 one is listed in known_findings.json
+# four listener keys: the entries end up in the bucket of the null pointer; one key alone is found by luck when its address % 7 is 0
+LISTENER_KEY_CASE = ("case lk 4d465553 1 4d6f72\nB 2 1 [ ]\nB 2 2 [ ]\nB 2 3 [ ]\nB 2 4 [ ]\n"
+                     "V * 1000:A:500000:1:7:7:0:5:0/1/2/3/4 2000:i:5 2001:i:6 2002:L:1 2003:i:7 2004:L:2 2005:i:8 2006:L:3 2007:i:9 2008:L:4 2009:i:a\nend\n")
+
+
+def finding_text(sig):
+    for f in vlib.known_findings("C10"):
+        if f.get("signature") == sig:
+            return f.get("what", sig)
+    if sig in PENDING and not os.environ.get("VERIF_STRICT_FINDINGS"):
+        return PENDING[sig] + " [reported; not yet decided: neither repaired nor in known_findings.json]"
+    return None
+
+
+def probe_listener_keys(res, seed):
+    """arrays keyed by listeners are written in an order that depends on addresses, so they cannot be compared byte for byte and are
+    not part of the generated cases; this probe only looks at what is read back"""
+    exe = vlib.build_harness("C10", HP.harness_sources, HP.variant, HP.use_lib)
+    rc, out, err = vlib.sh([exe], inp=LISTENER_KEY_CASE, env=vlib.ASAN_ENV, timeout=120)
+    m = [l for l in out.splitlines() if l.startswith("m V ")]
+    res.cov["evaluations"] += 1
+    sig = "C10:listener-keyed-array-entry-lost-after-load"
+    if rc != 0 or not m:
+        res.violation({"property": "C10", "unit": "C10", "kind": "crash", "why": "the listener-keyed array probe did not run: rc=%s %s" % (rc, err[-1500:]),
+                       "header": "4d465553 1 4d6f72", "ops": LISTENER_KEY_CASE.splitlines()[1:-1], "signature": sig, "seed": seed})
+    elif "!=>" in m[0]:
+        txt = finding_text(sig)
+        if txt:
+            res.known_finding("signature=%s read-back=%r : %s" % (sig, m[0][2:], txt))
+        else:
+            res.violation({"property": "C10", "unit": "C10", "kind": "direct", "signature": sig, "seed": seed,
+                           "why": "after the round trip the array entry keyed by a listener is not found by find(): " + m[0][2:],
+                           "header": "4d465553 1 4d6f72", "ops": LISTENER_KEY_CASE.splitlines()[1:-1],
+                           "replay_cmd": "./check C10 --replay <this file>"})
+
 
 def check(res, tier, seed):
     res.cov["rule"] += ("corpus first; every primitive kind x boundary values (0, 1, max, sign bit, NaN/inf/denormal bit patterns, the bytes of the null-pointer marker); "
-                        "empty archives under 6 header/version/name settings; every sequence up to length 2 (quick) / 3 (thorough) over a 20-letter alphabet of "
+                        "empty archives under 6 header/version/name settings; every sequence up to length 2 (quick) / 3 (thorough) over a 32-letter alphabet of "
                         "pointers (plain/weak, null, forward, backward, self, dangling), objects of 4 host classes with pointer bodies, positions, empty and 1-byte strings/raw; "
-                        "seeded random object graphs (<= 30 objects, <= 200 calls, pointers before and after their targets, objects archived twice / positioned / left out) and "
+                        "seeded random object graphs (<= 30 objects, <= 200 calls, pointers before and after their targets, objects archived twice / positioned / left out), "
+                        "seeded random script variables of all 14 kinds among listeners/containers (arrays with 0..18 integer/string keys, nested to depth 3, shared between variables, containing themselves, "
+                        "constant arrays, references between variables forward/backward/self, script pointers, variables inside listener bodies, keyed and unkeyed) and "
                         "random primitive/string sequences (empty, long <= 5000, bytes >= 0x80); compared: the written bytes byte for byte and every value / pointer identity read back; "
                         "non-trivial = >= 3 calls with an object and a non-null pointer")
     vlib.history_check(res, HP, tier, seed)
+    probe_listener_keys(res, seed)
 
 
 def replay(path):
